@@ -55,3 +55,33 @@ Theorem C16_newline_boundary : forall a b,
   scan (a ++ 10%N :: b) = scan (a ++ [10%N]) ++ map (ScanCut.shift_tok (S (length a))) (scan b).
 Proof. exact ScanCut.scan_nl. Qed.
 Print Assumptions C16_newline_boundary.
+
+(** ** from the script's bytes to the lines (Proofs/CliLines.v; bufio.Scanner / ScanLines with its
+    64 KiB limit is modelled by [events_of], coq/Model/Show.v) *)
+From PQL Require Import Model.Show Proofs.CliLines.
+
+(** nothing is dropped between the bytes read and the lines processed: the lines, joined with
+    newlines, are the script (plus one newline when the last line was not terminated) *)
+Theorem C16_lines_cover_script : forall s,
+  exists tail, (tail = [] \/ tail = [10%N]) /\ text_of (split_lines (S (length s)) s) = s ++ tail.
+Proof. intros s. apply lines_cover_script. apply Nat.lt_succ_diag_r. Qed.
+Print Assumptions C16_lines_cover_script.
+
+(** when no line reaches the limit, the run on the script's bytes is the one-shot specification on
+    the script's own text, each line without its trailing carriage return *)
+Theorem C16_script_is_expected : forall s, forallb short (split_lines (S (length s)) s) = true ->
+  run (events_of (S (length s)) s) = expected (text_of (map strip_cr (split_lines (S (length s)) s))).
+Proof. exact script_is_expected. Qed.
+Print Assumptions C16_script_is_expected.
+
+Theorem C16_script_without_cr : forall s, forallb (fun c => negb (c =? 13)%N) s = true ->
+  forallb short (split_lines (S (length s)) s) = true ->
+  exists tail, (tail = [] \/ tail = [10%N]) /\ run (events_of (S (length s)) s) = expected (s ++ tail).
+Proof. exact script_without_cr. Qed.
+Print Assumptions C16_script_without_cr.
+
+(** a line that reaches the limit cannot be read completely: the exit status is non-zero *)
+Theorem C16_long_line_fails : forall s, forallb short (split_lines (S (length s)) s) = false ->
+  o_fail (run (events_of (S (length s)) s)) = true.
+Proof. exact long_line_fails. Qed.
+Print Assumptions C16_long_line_fails.
